@@ -119,6 +119,7 @@ type FuncGen struct {
 	curLoop []*loopInfo // loops enclosing current block
 
 	interior    map[string]bool
+	entryLocs   []location
 	nilChecked  map[string]*ssa.BasicBlock
 	assumptions map[string]bool // human-readable assumptions used
 	warnings    []string
@@ -303,6 +304,7 @@ func (g *FuncGen) alloc() string { return g.get(g.st, "alloc") }
 // freshRef allocates a new reference.
 func (g *FuncGen) freshRef() string {
 	r := g.def("ref", "Int", g.alloc())
+	g.emit(fmt.Sprintf("(assert (= (rootref %s) %s))", r, r))
 	g.update("alloc", fmt.Sprintf("(+ %s 1)", g.alloc()))
 	return r
 }
@@ -320,7 +322,7 @@ func (g *FuncGen) val(v ssa.Value) string {
 		return fmt.Sprintf("%d", 1000000+g.sc.typeID("func:"+x.String()))
 	case *ssa.Global:
 		// address of a global used as value
-		return fmt.Sprintf("%d", -(1000000 + g.sc.typeID("global:"+x.String())))
+		return fmt.Sprintf("%d", 1000+g.sc.typeID("global:"+x.String()))
 	case *ssa.Builtin:
 		return "0"
 	}
@@ -414,7 +416,7 @@ func (g *FuncGen) addrOf(v ssa.Value) *Addr {
 		et := deref(gl.Type())
 		if _, isS := isStruct(et); isS {
 			// global struct: treat as an object at a fixed reference
-			ref := fmt.Sprintf("%d", -(1000000 + g.sc.typeID("global:"+gl.String())))
+			ref := fmt.Sprintf("%d", 1000+g.sc.typeID("global:"+gl.String()))
 			return &Addr{kind: aRefStruct, ref: ref, typ: et}
 		}
 		if _, ok := g.cellSort[key]; !ok {
@@ -654,7 +656,7 @@ func (g *FuncGen) run() {
 	// entry state
 	g.st = &State{m: map[string]string{}}
 	g.guard = "true"
-	g.emit("(assert (>= " + g.alloc() + " 1))")
+	g.emit("(assert (>= " + g.alloc() + " 1000000))")
 	// parameters
 	for _, p := range fn.Params {
 		name := q("p:" + p.Name())
@@ -679,10 +681,10 @@ func (g *FuncGen) run() {
 	if g.c != nil {
 		cx := g.newSpecCtx(g.st, g.entry)
 		for _, r := range g.c.Requires {
-			g.assume(cx.boolTerm(r.E))
+			g.assume(cx.assumeTerm(r.E))
 		}
 		for _, r := range g.c.Assumes {
-			g.assume(cx.boolTerm(r.E))
+			g.assume(cx.assumeTerm(r.E))
 			g.assumptions["assume clause in "+g.key+": "+r.Src] = true
 		}
 		for _, ln := range g.c.Uses {
@@ -692,7 +694,7 @@ func (g *FuncGen) run() {
 			}
 			lcx := g.newSpecCtx(g.st, g.entry)
 			lcx.vars = map[string]sval{}
-			g.emit("(assert " + lcx.boolTerm(lm.Body) + ")")
+			g.emit("(assert " + lcx.assumeTerm(lm.Body) + ")")
 			if lm.Assumed {
 				g.assumptions["lemma "+ln+" is assumed, not proved"] = true
 			}
@@ -701,7 +703,7 @@ func (g *FuncGen) run() {
 			if !g.env.isLemmaInstance(a.E) {
 				cx.fail("apply clause is not a lemma instance: %s", a.Src)
 			}
-			g.emit("(assert " + cx.boolTerm(a.E) + ")")
+			g.emit("(assert " + cx.assumeTerm(a.E) + ")")
 		}
 		g.execGhost("entry", cx)
 		// reachability cover of the precondition
@@ -911,10 +913,25 @@ func (g *FuncGen) enterLoop(l *loopInfo) {
 		cx.locals = true
 		cx.at = l.header
 		for _, inv := range l.spec.Invariants {
-			g.oblig("invariant-entry", loopLabel(l, inv), cx.boolTerm(inv.E), l.header.Instrs[0].Pos(), inv.Props, inv.Src)
+			cj := cx.conjuncts(inv.E)
+			for ci, t := range cj {
+				lab := loopLabel(l, inv)
+				if len(cj) > 1 {
+					lab = fmt.Sprintf("%s.%d", lab, ci+1)
+				}
+				g.oblig("invariant-entry", lab, t, l.header.Instrs[0].Pos(), inv.Props, inv.Src)
+			}
 		}
+	}
+	if l.spec != nil || g.c != nil {
+		cx := g.newSpecCtx(g.st, g.entry)
+		cx.pre = l.pre
+		cx.locals = true
+		cx.at = l.header
 		for _, f := range g.loopFrameInvariants(l, cx) {
-			_ = f
+			if strings.HasPrefix(f.src, "function frame ") {
+				g.oblig("loop-frame-entry", fmt.Sprintf("loop%d:%s", l.ordinal, strings.TrimPrefix(f.src, "function frame ")), f.expr, l.header.Instrs[0].Pos(), nil, f.src)
+			}
 		}
 	}
 	// 2. havoc modified state
@@ -937,7 +954,7 @@ func (g *FuncGen) enterLoop(l *loopInfo) {
 		cx.locals = true
 		cx.at = l.header
 		for _, inv := range l.spec.Invariants {
-			g.assume(cx.boolTerm(inv.E))
+			g.assume(cx.assumeTerm(inv.E))
 		}
 		for _, f := range g.loopFrameInvariants(l, cx) {
 			g.assume(f.expr)
@@ -946,11 +963,17 @@ func (g *FuncGen) enterLoop(l *loopInfo) {
 			if !g.env.isLemmaInstance(a.E) {
 				cx.fail("apply clause is not a lemma instance: %s", a.Src)
 			}
-			g.assume(cx.boolTerm(a.E))
+			g.assume(cx.assumeTerm(a.E))
 		}
 		if l.spec.Decreases != nil {
 			t := cx.intTerm(l.spec.Decreases.E)
 			l.decrName = g.def("decr", "Int", t)
+		}
+	} else if g.c != nil {
+		cx := g.newSpecCtx(g.st, g.entry)
+		cx.pre = l.pre
+		for _, f := range g.loopFrameInvariants(l, cx) {
+			g.assume(f.expr)
 		}
 	}
 }
@@ -969,65 +992,96 @@ type frameInv struct {
 
 // loopFrameInvariants turns a loop's modifies clauses into invariants C == store(C@pre, r, C[r]).
 func (g *FuncGen) loopFrameInvariants(l *loopInfo, cx *SpecCtx) []frameInv {
+	var out0 []frameInv
+	if g.c != nil {
+		// the function's own frame condition holds at every loop iteration
+		if g.entryLocs == nil {
+			cxE := g.newSpecCtx(g.entry, g.entry)
+			g.entryLocs = []location{}
+			for _, m := range g.c.Modifies {
+				g.entryLocs = append(g.entryLocs, cxE.locations(m.E)...)
+			}
+		}
+		ea := g.get(g.entry, "alloc")
+		for _, k := range sortedKeys(l.modified) {
+			if _, isCell := g.cellSort[k]; isCell || k == "alloc" {
+				continue
+			}
+			cur := g.get(cx.st, k)
+			ent := g.get(g.entry, k)
+			var excl []string
+			for _, lc := range g.entryLocs {
+				if lc.comp == k {
+					excl = append(excl, fmt.Sprintf("(not %s)", lc.member("fr!r")))
+				}
+			}
+			body := fmt.Sprintf("(=> %s (= (select %s fr!r) (select %s fr!r)))", and(append([]string{existedAt("fr!r", ea)}, excl...)...), cur, ent)
+			out0 = append(out0, frameInv{fmt.Sprintf("(forall ((fr!r Int)) (! %s :pattern ((select %s fr!r))))", body, cur), "function frame " + k})
+		}
+	}
 	if l.spec == nil || len(l.spec.Modifies) == 0 {
-		return nil
+		return out0
 	}
 	precx := g.newSpecCtx(l.pre, g.entry)
 	precx.pre = l.pre
 	precx.locals = true
 	precx.at = l.header
-	targets := map[string][]string{} // comp -> refs
+	var locs []location
 	for _, m := range l.spec.Modifies {
-		for _, loc := range precx.locations(m.E) {
-			targets[loc.comp] = append(targets[loc.comp], loc.ref)
-		}
+		locs = append(locs, precx.locations(m.E)...)
 	}
 	var out []frameInv
+	pa := g.get(l.pre, "alloc")
 	for _, k := range sortedKeys(l.modified) {
 		if _, isCell := g.cellSort[k]; isCell || k == "alloc" {
 			continue
 		}
 		cur := g.get(cx.st, k)
 		pre := g.get(l.pre, k)
-		expr := pre
-		for _, r := range targets[k] {
-			expr = fmt.Sprintf("(store %s %s (select %s %s))", expr, r, cur, r)
-		}
-		// objects allocated since loop entry are exempt: quantify
-		if l.modified["alloc"] {
-			rv := "fr!r"
-			var excl []string
-			for _, r := range targets[k] {
-				excl = append(excl, fmt.Sprintf("(not (= %s %s))", rv, r))
+		rv := "fr!r"
+		var excl []string
+		for _, lc := range locs {
+			if lc.comp == k {
+				excl = append(excl, fmt.Sprintf("(not %s)", lc.member(rv)))
 			}
-			pa := g.get(l.pre, "alloc")
-			body := fmt.Sprintf("(=> (and (< %s %s) %s) (= (select %s %s) (select %s %s)))", rv, pa, and(excl...), cur, rv, pre, rv)
-			out = append(out, frameInv{fmt.Sprintf("(forall ((%s Int)) (! %s :pattern ((select %s %s))))", rv, body, cur, rv), "loop frame " + k})
-		} else {
-			out = append(out, frameInv{fmt.Sprintf("(= %s %s)", cur, expr), "loop frame " + k})
 		}
+		body := fmt.Sprintf("(=> %s (= (select %s %s) (select %s %s)))", and(append([]string{existedAt(rv, pa)}, excl...)...), cur, rv, pre, rv)
+		out = append(out, frameInv{fmt.Sprintf("(forall ((%s Int)) (! %s :pattern ((select %s %s))))", rv, body, cur, rv), "loop frame " + k})
 	}
-	return out
+	return append(out0, out...)
 }
 
 func (g *FuncGen) backEdge(from *ssa.BasicBlock, l *loopInfo, edgeCond string) {
 	saveGuard := g.guard
 	g.guard = edgeCond
+	if l.spec == nil && g.c != nil {
+		cx := g.newSpecCtx(g.st, g.entry)
+		cx.pre = l.pre
+		for _, f := range g.loopFrameInvariants(l, cx) {
+			g.oblig("loop-frame", fmt.Sprintf("loop%d:%s", l.ordinal, strings.TrimPrefix(f.src, "function frame ")), f.expr, l.header.Instrs[0].Pos(), nil, f.src)
+		}
+	}
 	if l.spec != nil {
 		cx := g.newSpecCtx(g.st, g.entry)
 		cx.pre = l.pre
 		cx.locals = true
 		cx.at = l.header
 		for _, h := range l.spec.Hints {
-			t := cx.boolTerm(h.E)
-			g.oblig("hint", fmt.Sprintf("loop%d:%s", l.ordinal, h.Name), t, from.Instrs[len(from.Instrs)-1].Pos(), h.Props, h.Src)
-			g.assume(t)
+			g.oblig("hint", fmt.Sprintf("loop%d:%s", l.ordinal, h.Name), cx.boolTerm(h.E), from.Instrs[len(from.Instrs)-1].Pos(), h.Props, h.Src)
+			g.assume(cx.assumeTerm(h.E))
 		}
 		for _, inv := range l.spec.Invariants {
-			g.oblig("invariant-preserve", loopLabel(l, inv), cx.boolTerm(inv.E), from.Instrs[len(from.Instrs)-1].Pos(), inv.Props, inv.Src)
+			cj := cx.conjuncts(inv.E)
+			for ci, t := range cj {
+				lab := loopLabel(l, inv)
+				if len(cj) > 1 {
+					lab = fmt.Sprintf("%s.%d", lab, ci+1)
+				}
+				g.oblig("invariant-preserve", lab, t, from.Instrs[len(from.Instrs)-1].Pos(), inv.Props, inv.Src)
+			}
 		}
 		for _, f := range g.loopFrameInvariants(l, cx) {
-			g.oblig("loop-frame", fmt.Sprintf("loop%d", l.ordinal), f.expr, l.header.Instrs[0].Pos(), nil, f.src)
+			g.oblig("loop-frame", fmt.Sprintf("loop%d:%s", l.ordinal, strings.TrimPrefix(strings.TrimPrefix(f.src, "loop frame "), "function frame ")), f.expr, l.header.Instrs[0].Pos(), nil, f.src)
 		}
 		if l.spec.Decreases != nil {
 			t := cx.intTerm(l.spec.Decreases.E)
